@@ -38,8 +38,9 @@ type PlugScript struct {
 	DelayAfter  int64      `json:"delay_after_ns,omitempty"`
 	Hang        string     `json:"hang,omitempty"` // before | mid | after
 	Exit        int        `json:"exit,omitempty"`
-	ExitAfter   *int       `json:"exit_after,omitempty"` // exit (with Exit) after that many bytes of stdout
-	OutPrefix   string     `json:"out_prefix,omitempty"` // names of files are prefixed with the request's OutputPath if set to "$OUT"
+	ExitAfter   *int       `json:"exit_after,omitempty"`    // exit (with Exit) after that many bytes of stdout
+	OutPrefix   string     `json:"out_prefix,omitempty"`    // names of files are prefixed with the request's OutputPath if set to "$OUT"
+	IgnoreInt   bool       `json:"ignore_sigint,omitempty"` // the plugin ignores SIGINT / SIGTERM (only SIGKILL ends it)
 }
 
 func sha(b []byte) string {
@@ -261,6 +262,9 @@ func pluginProgram(p *simrt.Proc, raw json.RawMessage) int {
 	if err := json.Unmarshal(raw, &sc); err != nil {
 		p.Note("script.error", err.Error())
 		return 97
+	}
+	if sc.IgnoreInt {
+		p.IgnoreInterrupt()
 	}
 	if sc.DelayBefore > 0 {
 		p.Sleep(time.Duration(sc.DelayBefore))
